@@ -117,6 +117,8 @@ def apply_global_rewrites(text, keep_panics=False):
     for op in ('max', 'min'):
         new, n = re.subn(r'((?:\b[\w]+(?:\.[\w]+)*)|\((?:[^()]|\([^()]*\))*\))\.' + op + r'\(', r'v' + op + r'(\1, ', text)
         bump(f'R11 a.{op}(b) -> v{op}(a, b)', n); text = new
+    # R13 closure parameter `_` (rejected by Verus) gets a name
+    new, n = re.subn(r'\|\s*_\s*\|', '|_e|', text); bump('R13 closure |_| -> |_e|', n); text = new
     # R12 aborts
     if not keep_panics:
         for mac in ('panic', 'unreachable', 'todo', 'unimplemented'):
@@ -200,7 +202,7 @@ def parse_rx(s):
 
 
 def process_block(kind, header, dirs, report):
-    parts = [p.strip() for p in header.split('::')]
+    parts = [p.strip() for p in re.split(r'\s+::\s+', header)]
     file = parts[0]
     path = os.path.join(REPO, file)
     try:
@@ -297,6 +299,22 @@ def generate(template_path):
             report['serves'] = ln.split()[1:]; i += 1; continue
         if ln.startswith('//@replay'):
             report['replay'] = ln.split(None, 1)[1].strip(); i += 1; continue
+        if ln.startswith('//@contract-of'):
+            # the contract text proved for FN in another unit, restated verbatim here as an assumption
+            _, u2, f2 = ln.split()
+            t2 = open(os.path.join(os.path.dirname(template_path), u2 + '.vc')).read()
+            mm2 = re.search(r'(?ms)^//@fn [^\n]*::\s*' + re.escape(f2) + r'\b[^\n]*\n(.*?)^//@end', t2)
+            if not mm2:
+                raise TemplateError(f'contract-of: {f2} not found in {u2}')
+            cm = re.search(r'(?ms)^//@contract\n(.*?)(?=^//@)', mm2.group(1) + '//@')
+            out.append(cm.group(1))
+            report.setdefault('imported_contracts', []).append(f'{u2}::{f2}')
+            i += 1; continue
+        if ln.startswith('//@include'):
+            inc = os.path.join(os.path.dirname(template_path), ln.split(None, 1)[1].strip())
+            out.append(open(inc).read())
+            report.setdefault('includes', []).append(os.path.basename(inc))
+            i += 1; continue
         mm = re.match(r'//@(fn|range)\s+(.*)$', ln)
         if mm:
             kind, header = mm.group(1), mm.group(2)
